@@ -36,10 +36,19 @@ static void vm_init(struct verif_vm *S) {
 #ifndef VARIADIC
 #define VARIADIC 0
 #endif
+#ifndef EXTRA
+#define EXTRA 0          /* variadic callee: number of actual arguments beyond its fixed parameters (collected into the rest list) */
+#endif
+#define NFIX (N - EXTRA) /* fixed parameters of the callee */
+#if VARIADIC
+#define NFRAME (NFIX + 1)        /* the callee sees its fixed parameters and one rest list */
+#else
+#define NFRAME N
+#endif
 
 void h_tail_call(void) {
   struct verif_vm S; vm_init(&S);
-  mk_proc(&callee_obj, &callee_bc, N, 0);
+  mk_proc(&callee_obj, &callee_bc, VARIADIC ? NFIX : N, VARIADIC ? (char)(sexp_uint_t)sexp_make_fixnum(SEXP_PROC_VARIADIC) : 0);     /* the flags byte holds a tagged fixnum, as sexp_make_procedure stores it */
   mk_proc(&caller_obj, &caller_bc, J0, 0);       /* the running procedure */
   mk_proc(&outer_obj, &caller_bc, 0, 0);         /* whoever called it (return link) */
   sexp *st = S.stack;
@@ -65,20 +74,28 @@ void h_tail_call(void) {
   OBL(S.self == (sexp)&outer_obj && S.ip == (unsigned char*)sexp_bytecode_data((sexp)&caller_bc) + in_retoff - sizeof(sexp), "tail_call.return_link: self/ip restored to the caller's return link");
   ex = verif_op_CALL__make_call(&S);
   OBL(ex == VERIF_EXIT_NEXT, "make_call.exit: the call completes");
-  OBL(S.fp == fp0 - J0 + N, "tail_call.frame_replaced: new fp == fp0 - j0 + n, independent of the caller's temporaries");
+  OBL(S.fp == fp0 - J0 + NFRAME, "tail_call.frame_replaced: new fp == fp0 - j0 + (parameters of the callee), independent of the caller's temporaries and of the number of rest arguments");
   OBL(S.top == S.fp + 4, "tail_call.frame_top: top == fp + 4");
   OBL(st[S.fp + 1] == sexp_make_fixnum(in_retoff) && st[S.fp + 2] == (sexp)&outer_obj && st[S.fp + 3] == sexp_make_fixnum(in_prevfp),
       "tail_call.link: the new frame returns where the caller would have returned (return offset, self, previous fp)");
 #else
   int ex = verif_op_CALL(&S);
   OBL(ex == VERIF_EXIT_NEXT, "call.exit: the call completes");
-  OBL(S.fp == top0 - 1, "call.frame_stacked: a non-tail call builds its frame above the caller's temporaries: fp == top0 - 1");
+  OBL(S.fp == top0 - 1 - (N - NFRAME), "call.frame_stacked: a non-tail call builds its frame above the caller's temporaries: fp == top0 - 1 (less the rest arguments folded into one list)");
   OBL(S.top == S.fp + 4, "call.frame_top: top == fp + 4");
   OBL(st[S.fp + 2] == (sexp)&caller_obj && st[S.fp + 3] == sexp_make_fixnum(fp0), "call.link: the new frame returns into the caller (self, fp)");
   for (int k = 0; k < NTMP; k++) OBL(st[fp0 + 4 + k] == in_tmp[k], "call.temporaries_kept: the caller's temporaries are untouched");
 #endif
-  OBL(st[S.fp] == sexp_make_fixnum(N), "frame.nargs: frame records the argument count");
+  OBL(st[S.fp] == sexp_make_fixnum(NFRAME), "frame.nargs: frame records the argument count (fixed parameters plus one rest list for a variadic callee)");
+#if VARIADIC
+  /* arguments are pushed last-first: the EXTRA lowest slots are the trailing actual arguments; they are collected, in argument order, into the list in the lowest slot */
+  for (int k = 0; k < NFIX; k++) OBL(st[S.fp - NFIX + k] == in_callarg[EXTRA + k], "frame.args: fixed arguments below the frame in order");
+  { sexp l = st[S.fp - NFRAME];
+    for (int m = 0; m < EXTRA; m++) { OBL(sexp_pairp(l) && sexp_car(l) == in_callarg[EXTRA - 1 - m], "frame.rest: the rest list holds exactly the extra arguments, in argument order"); if (sexp_pairp(l)) l = sexp_cdr(l); }
+    OBL(l == SEXP_NULL, "frame.rest_end: ... and nothing else"); }
+#else
   for (int k = 0; k < N; k++) OBL(st[S.fp - N + k] == in_callarg[k], "frame.args: arguments below the frame in order");
+#endif
   OBL(S.self == (sexp)&callee_obj && S.ip == (unsigned char*)sexp_bytecode_data((sexp)&callee_bc), "frame.control: control is at the first instruction of the callee");
   OBL(sexp_context_top(S.ctx) <= S.top, "frame.published_top: the published top does not exceed top");
   REACH();
